@@ -85,6 +85,11 @@ ASSUME \A ty \in WrapTypes : \A x, y \in NarrowProbe : LawNarrow(ty, x, y)
 ASSUME \A x, y \in NarrowProbe : LawNarrowMul("uc", x, y)
 ASSUME \A x \in NarrowProbe : \A y \in {0, 1, 7, 200, 257} : LawNarrowMul("us", x, y) /\ LawNarrowMul("us", y, x)
 ASSUME \A t, u \in Types : LawUAC(t, u)
+\* compound assignment with a scalar of another type
+ASSUME \A x \in -12..12 : \A p \in -9..9 : \A q \in {1, 2, 4} : LawCompoundQ(x, p, q)
+\* ... and it is NOT "convert the scalar first": the two readings differ on the operands of the emitted cases
+ASSUME CMulQS(10, 1, 2) = 5 /\ 10 * TruncQ(1, 2) = 0 /\ CDivQS(7, 5, 2) = 2 /\ DivS(7, TruncQ(5, 2)) = 3
+ASSUME DivS(200, 300) = 0 /\ DivS(200, Narrow("uc", 300)) = 4 /\ ModS(200, 300) = 200 /\ ModS(200, Narrow("uc", 300)) = 24
 \* integer promotion and the LP64 cases the drivers rely on
 ASSUME UAC("uc", "c") = "i" /\ UAC("us", "uc") = "i" /\ UAC("ui", "i") = "ui" /\ UAC("ui", "l") = "l" /\ UAC("ul", "l") = "ul"
 ASSUME UAC("i", "f") = "f" /\ UAC("l", "f") = "f" /\ UAC("f", "d") = "d" /\ UAC("s", "s") = "i"
